@@ -167,10 +167,15 @@ def gen_poolmix(seed, tier, o):
     }
     faulty = o.get("faulty", False)
     if faulty:
-        kinds = r.sample(["read_error", "write_error", "eof", "connect_error", "tls_error",
-                          "read_timeout", "write_timeout", "connect_timeout"],
-                         r.randint(1, 3))
-        net["fault_rates"] = {k: r.choice([0.01, 0.03, 0.08]) for k in kinds}
+        allk = o.get("fault_kinds") or ["read_error", "write_error", "eof", "connect_error",
+                                        "tls_error", "read_timeout", "write_timeout",
+                                        "connect_timeout"]
+        kinds = r.sample(allk, min(len(allk), r.randint(1, 3)))
+        net["fault_rates"] = {k: r.choice(o.get("fault_rates", [0.01, 0.03, 0.08])) for k in kinds}
+    if o.get("retries"):
+        # connection establishment is retried with back-off: failed attempts, pauses and
+        # the eventual success interleave with the other callers' pool passes
+        pool["retries"] = r.choice(o["retries"])
     callers = []
     big = o.get("big", tier == "thorough") and net["seg"] in ("whole", "segment")
     small = net["seg"] == "byte"
@@ -194,6 +199,15 @@ def gen_poolmix(seed, tier, o):
                 if b is None:
                     b = {"len": r.randint(0, 2000)}
                 op["body"] = b
+                if proto == "h1" and o.get("p_caller_error") and b["len"] >= 2 and \
+                        rsel.random() < o["p_caller_error"]:
+                    # a caller error half-way through a request: the body runs past the
+                    # Content-Length the caller declared; the declared part is on the wire
+                    # and the server answers it - nobody else may ever read that answer
+                    m = rsel.randint(1, b["len"] - 1)
+                    op["body"] = {"len": b["len"], "chunks": [m, b["len"] - m], "oneshot": True}
+                    op["headers"].append(["Content-Length", str(m)])
+                    op["caller_error"] = "body-longer-than-content-length"
             to = {}
             if r.random() < o.get("p_pool_timeout", 0.2):
                 to["pool"] = r.choice([0.0, 0.001, 0.05, 0.5, 5.0])
